@@ -1511,6 +1511,13 @@ impl Config {
             }
         }
 
+        // With a health check timeout of zero every health check fails before the server can
+        // answer: every server ends up banned and nothing can be served.
+        if self.general.healthcheck_timeout == 0 {
+            error!("healthcheck_timeout must be greater than zero");
+            return Err(Error::BadConfig);
+        }
+
         // Validation for auth_query feature
         if self.general.auth_query.is_some()
             && (self.general.auth_query_user.is_none()
